@@ -467,8 +467,24 @@ impl<Ix: SIx> Driver<Ix> {
                     }
                     "clone_from" => {
                         self.obj = match &self.obj {
-                            Obj::GD(g) => { let mut h = Graph::with_capacity(1, 1); h.add_node(99); h.clone_from(g); Obj::GD(h) }
-                            Obj::GU(g) => { let mut h = Graph::with_capacity(1, 1); h.add_node(99); h.clone_from(g); Obj::GU(h) }
+                            Obj::GD(g) => {
+                                // the destination has its own nodes and edges (more or fewer than the source)
+                                let mut h = Graph::with_capacity(1, 1);
+                                let k = ixmax.min(4).max(2);
+                                let ns: Vec<_> = (0..k).map(|i| h.add_node(90 + i as i32)).collect();
+                                if x % 3 != 0 { for i in 0..k { h.add_edge(ns[i], ns[(i + 1) % k], 900 + i as i32); } }
+                                h.clone_from(g);
+                                Obj::GD(h)
+                            }
+                            Obj::GU(g) => {
+                                // the destination has its own nodes and edges (more or fewer than the source)
+                                let mut h = Graph::with_capacity(1, 1);
+                                let k = ixmax.min(4).max(2);
+                                let ns: Vec<_> = (0..k).map(|i| h.add_node(90 + i as i32)).collect();
+                                if x % 3 != 0 { for i in 0..k { h.add_edge(ns[i], ns[(i + 1) % k], 900 + i as i32); } }
+                                h.clone_from(g);
+                                Obj::GU(h)
+                            }
                             Obj::SD(g) => {
                                 // the destination has its own history: live elements and vacant node AND edge slots (free lists)
                                 let mut h = StableGraph::with_capacity(1, 1);
